@@ -21,6 +21,16 @@ package haproxy
 //@   ensures one-write:          calls(writeConfig) <= 1
 //@ end
 
+// C05 — an update that removes backends rewrites the configuration files: what
+// was removed must not stay on disk (the change flags are cleared by Commit)
+// (checked where the write decision has just been taken: if the files were not
+// written, no removed backend is pending)
+//@ func (*instance).HAProxyUpdate#removed
+//@   props C05
+//@   requires cfg: i.config != nil
+//@   at call updateCertExpiring#1 assert removed-written: calls(writeConfig) == 1 || len(i.config.Backends().ItemsDel()) == 0
+//@ end
+
 // ---------------------------------------------------------------------------
 // C17 — the acme work queue follows the model, on the leader only
 
